@@ -113,6 +113,15 @@ def shapes():
 def markers_of(text):
     return [m.group(1) for m in re.finditer(r'/\*@[SM]:(.*?)@\*/', text)]
 
+def closure_headers_of(text):
+    out = []
+    for m in re.finditer(r'/\*@CLS:(\d+):BEGIN@\*/(.*?)/\*@CLS:\1:END@\*/', text, re.S):
+        k = int(m.group(1))
+        while len(out) <= k:
+            out.append('')
+        out[k] = re.sub(r'\s+', ' ', m.group(2)).strip()
+    return out
+
 def rule_markers_of(text):
     """markers emitted by a rewriting rule (R5, format! capture, closure bodies): they exist only where the rule applied"""
     return [m.group(1) for m in re.finditer(r'/\*@M:(.*?)@\*/', text)]
@@ -182,6 +191,12 @@ def weave(item, ext):
                 # the closure the contract was written for no longer exists: the contract is moot, the function's own
                 # contract still has to hold
                 REANCHORED.append("%s: closure %d no longer exists, its woven contract was dropped" % (what, arg))
+                continue
+            base_cl = (shapes().get(what) or {}).get('closures') or []
+            cur_header = re.sub(r'\s+', ' ', text[i + len(b):j]).strip()
+            if USE_BASELINE_LOOPS and arg < len(base_cl) and base_cl[arg] and base_cl[arg] != cur_header:
+                # the closure at this ordinal has other parameters than the one the contract was written for
+                REANCHORED.append("%s: closure %d changed its parameters (%r, was %r), its woven contract was dropped" % (what, arg, cur_header, base_cl[arg]))
                 continue
             text = text[:i] + body + text[j + len(e):]
         elif kind == 'type':
@@ -314,6 +329,7 @@ def assemble(unit_names, workdir, repo=None):
             if isinstance(e, vspec.Item):
                 shape_now["%s :: %s" % (e.file, e.sel)] = {"stmts": markers_of(ext[id(e)]['text']),
                                                           "rule_markers": rule_markers_of(ext[id(e)]['text']),
+                                                          "closures": closure_headers_of(ext[id(e)]['text']),
                                                           "loops": ext[id(e)].get('loop_sigs', [])}
     meta = {"units": order, "linemap": linemap, "items": functions, "path": path, "shapes": shape_now,
             "reanchored": list(REANCHORED)}
